@@ -27,6 +27,11 @@ SERVERS = {
     "ping_flood": [(100, wire.sframe(9, b"k")) for i in range(25)],
     "data_eof": [(0, wire.sframe(1, b"last")), (0, "eof")],
     "close_empty_eof": [(0, wire.sframe(8, b"")), (0, "eof")],
+    # a frame that arrives one byte at a time, slower than any single read would time out
+    "dribble": [(400, bytes([b])) for b in wire.sframe(1, b"0123456789")],
+    # the peer closes its end right after its close frame and the transport then refuses writes (EPIPE)
+    "close_eof_epipe": [(0, wire.sframe(1, b"hi")), (0, wire.sframe(8, b"\x03\xe9bye")), (0, "eof")],
+    "ping_eof_epipe": [(0, wire.sframe(9, b"p")), (0, wire.sframe(1, b"x")), (0, "eof")],
     "pings_data_close": [(50, wire.sframe(9, b"a")), (50, wire.sframe(1, b"t")), (50, wire.sframe(9, b"")), (50, wire.sframe(2, b"\x00", 0)),
                          (50, wire.sframe(9, b"in")), (50, wire.sframe(0, b"\x01", 1)), (50, wire.sframe(8, b"\x03\xe8")), (0, "eof")],
 }
@@ -72,6 +77,7 @@ def run_seq(sc):
         ev.append(e)
 
     w = World()
+    w.epipe_after_eof = sc["server"].endswith("_epipe")
     log({"ev": "begin", "stream": list(stream), "server": sc["server"], "calls": sc["calls"]})
     with w:
         ws = websocket.WebSocket()
@@ -93,7 +99,7 @@ def run_seq(sc):
         def flush():
             nonlocal mark
             for e in w.log[mark:]:
-                if e["ev"] in ("tsend", "trecv", "ttimeout", "teof", "terr", "tclose", "tshutdown", "tsettimeout", "tbad"):
+                if e["ev"] in ("tsend", "tsendfail", "trecv", "ttimeout", "teof", "terr", "tclose", "tshutdown", "tsettimeout", "tbad"):
                     x = {k: v for k, v in e.items() if k not in ("sock",)}
                     if e["ev"] == "tsettimeout":
                         x["value"] = int(e["value"] * 1000) if e["value"] not in (-1, None) else -1
@@ -234,8 +240,12 @@ def validate(ctx, scs, tag):
 
 def finding_for(ctx, clause, sc, trace, at):
     for fid, f in ctx.open_findings.items():
-        if f.get("clause") == clause:
-            return fid
+        if f.get("clause") != clause:
+            continue
+        pat = f.get("pattern") or {}
+        if "server" in pat and sc["server"] not in pat["server"]:
+            continue
+        return fid
     return None
 
 
@@ -252,7 +262,8 @@ def main(ctx):
             ctx.machinery_error = "harness inconsistency %s in %s: %s" % (why, sc, trace[max(0, b["at"] - 3):b["at"] + 1])
         elif owner == "X08":
             ctx.remark("DRIFT (extended coverage, not a listed property): %s in calls %s against '%s'" % (why, sc["calls"], sc["server"]))
-        elif owner == "C08":
+        elif owner == "C08" or why in ("C17.undocumented_exception", "C03.spurious_exception"):
+            # (an exception outside the documented ones, or one nothing called for, inside a call sequence breaks the state machine too)
             ctx.deviation(finding_for(ctx, why, sc, trace, b["at"]),
                           "calls %s against server '%s': event %d breaks %s; %s" % (
                               sc["calls"], sc["server"], b["at"], why,
